@@ -16,6 +16,7 @@ Everything the manager writes, every close and every failed write is recorded in
 from __future__ import annotations
 
 import errno
+import socket as _socket
 import socket as _real_socket
 from collections import defaultdict
 from typing import Any, Dict, Iterable, List, Optional, Tuple
@@ -104,13 +105,20 @@ class FakeConn:
         if self.read_error == which:
             raise ConnectionResetError(errno.ECONNRESET, "Connection reset by peer")
         n = min(nbytes, len(self.inbuf))
+        if not (flags & _socket.MSG_WAITALL) and n > 1:
+            # without MSG_WAITALL a read returns what has arrived so far: the bytes of a frame arrive in two pieces
+            n = (n + 1) // 2
         memoryview(buf)[:n] = self.inbuf[:n]
         self.inbuf = self.inbuf[n:]
         return n
 
-    def sendall(self, data):
+    def sendall(self, data, flags=0):
         if self.closed:
             raise OSError(errno.EBADF, "Bad file descriptor")
+        if flags & getattr(_socket, "MSG_DONTWAIT", 0x40) and len(data) > 8:
+            # a non-blocking send may find the buffer full at any byte: half of the data goes out, then EAGAIN
+            self.world.events.append(("W", self.uid, bytes(data[:len(data) // 2])))
+            raise BlockingIOError(errno.EAGAIN, "Resource temporarily unavailable")
         first = self._parity == 0
         self._parity ^= 1
         if (self.fail_write == "hdr" and first) or (self.fail_write == "pay" and not first):
@@ -160,8 +168,11 @@ class SocketShim:
 
     def __init__(self, world: "World"):
         self._w = world
-        for k in ("AF_INET", "SOCK_STREAM", "IPPROTO_TCP", "SOMAXCONN", "INADDR_ANY", "MSG_WAITALL", "TCP_NODELAY",
-                  "SOL_SOCKET", "SO_REUSEADDR"):
+        # every constant of the real module (a rewrite may use flags the current code does not: MSG_DONTWAIT, SO_SNDBUF, …)
+        for k in dir(_real_socket):
+            if k.isupper() and isinstance(getattr(_real_socket, k), int):
+                setattr(self, k, getattr(_real_socket, k))
+        for k in ("timeout", "error", "gaierror", "herror"):
             setattr(self, k, getattr(_real_socket, k))
         self.socket = self._socket_type()
 
@@ -260,7 +271,8 @@ class ScriptedSelect:
         return [], [], []
 
 
-def make_manager(timecode: bool = False, log_level: int = 100, send_msg_timing: bool = True, order: str = "fwd"):
+def make_manager(timecode: bool = False, log_level: int = 100, send_msg_timing: bool = True, order: str = "fwd",
+                 debug: bool = False):
     """Construct a real MessageManager wired to a fresh fake world.  Returns (mgr, world, module `pyrtma.manager`)."""
     import pyrtma.manager as M
 
@@ -270,7 +282,7 @@ def make_manager(timecode: bool = False, log_level: int = 100, send_msg_timing: 
     M.random = NoShuffle()
     with _quiet():
         mgr = M.MessageManager(ip_address="127.0.0.1", port=7111, timecode=timecode, log_level=log_level,
-                               debug=False, send_msg_timing=send_msg_timing)
+                               debug=debug, send_msg_timing=send_msg_timing)
     # keep console logging quiet; the RTMA handler (forwarding logs as messages) follows log_level
     try:
         mgr.logger.enable_console = False
